@@ -12,11 +12,12 @@ from sim import audit as auditmod
 
 
 class Violation:
-    __slots__ = ('prop', 'clause', 'message', 'keys', 'step')
+    __slots__ = ('prop', 'clause', 'message', 'keys', 'step', 'repro')
 
     def __init__(self, prop, clause, message, keys=(), step=None):
         self.prop, self.clause, self.message, self.keys, self.step = (
             prop, clause, message, tuple(keys), step)
+        self.repro = None       # (case, choices) when the violation belongs to a sub-run
 
     def signature(self):
         return f'{self.prop}/{self.clause}'
